@@ -1,62 +1,324 @@
 /-
 C06 — Every date the API hands out is the calendar's canonical date for its JDN.
-(partial: the producers of the proleptic calendars)
+
+`Produced d` is the inductive set of dates obtainable by any finite sequence of the
+date-producing operations of the public API, starting from calendars a caller can hold
+(`WF`: proleptic, or returned by `Calendar::reforming`) and arguments of the parameter
+types.  `produced_canon` is an induction over that history.
 -/
-import JulianVerif.Lemmas.Proleptic
-import JulianVerif.Lemmas.YearStart
+import JulianVerif.Lemmas.AcceptInst
+import JulianVerif.Model.Text
+import JulianVerif.Model.Time
+import JulianVerif.Model.Foreign
+set_option linter.unusedSimpArgs false
 namespace JV.C06
 open JV Spec
 
-/-- a date is canonical when it is field-for-field what its own calendar says about its
-day number -/
-def Canon (d : Date) : Prop := d.calendar.atJdn? d.jdn = some d
+/-- a date is canonical: its calendar is well-formed, its day number is a 32-bit value, and
+it is field-for-field what its own calendar says about that day number -/
+def Canon (d : Date) : Prop :=
+  WF d.calendar ∧ InI32 d.jdn ∧ d.calendar.atJdn? d.jdn = some d
 
-/-- `at_jdn` itself -/
-theorem canon_atJdn (c : Calendar) (j : Int) (d : Date) (h : c.atJdn? j = some d) : Canon d := by
-  have hc : d.calendar = c ∧ d.jdn = j := by
-    simp only [Calendar.atJdn?] at h
-    split at h
-    · cases h; exact ⟨rfl, rfl⟩
-    · cases h
-  simp only [Canon, hc.1, hc.2, h]
+/-- every way the public API produces a `Date` -/
+inductive Produced : Date → Prop
+  | atJdn (c : Calendar) (hc : WF c) (j : Int) (hj : InI32 j) (d : Date)
+      (h : c.atJdn? j = some d) : Produced d
+  | atYmd (c : Calendar) (hc : WF c) (y : Int) (hy : InI32 y) (m : Month) (dd : Int) (hd : InU32 dd)
+      (d : Date) (h : c.atYmd y m dd = .ok d) : Produced d
+  | atOrdinalDate (c : Calendar) (hc : WF c) (y : Int) (hy : InI32 y) (o : Int) (ho : InU32 o)
+      (d : Date) (h : c.atOrdinalDate y o = .ok d) : Produced d
+  | parseDate (c : Calendar) (hc : WF c) (s : List Char) (d : Date)
+      (h : c.parseDate s = .ok d) : Produced d
+  | atUnixTime (c : Calendar) (hc : WF c) (t : Int) (d : Date) (secs : Int)
+      (h : c.atUnixTime? t = some (some (d, secs))) : Produced d
+  | atSystemTime (c : Calendar) (hc : WF c) (before : Bool) (s n : Int) (d : Date) (secs : Int)
+      (h : c.atSystemTime? before s n = some (some (d, secs))) : Produced d
+  | lastJulian (c : Calendar) (hc : WF c) (d : Date) (h : c.lastJulianDate = some d) : Produced d
+  | firstGregorian (c : Calendar) (hc : WF c) (d : Date) (h : c.firstGregorianDate = some d) : Produced d
+  | nthDate (c : Calendar) (hc : WF c) (y : Int) (hy : InI32 y) (m : Month) (s : MonthShape)
+      (hs : c.monthShape y m = some s) (n : Int) (hn : InU32 n) (d : Date)
+      (h : s.nthDate n = some d) : Produced d
+  | convertTo (d₀ : Date) (h₀ : Produced d₀) (c : Calendar) (hc : WF c) (d : Date)
+      (h : d₀.convertTo? c = some d) : Produced d
+  | succ (d₀ : Date) (h₀ : Produced d₀) (d : Date) (h : d₀.succ = some d) : Produced d
+  | pred (d₀ : Date) (h₀ : Produced d₀) (d : Date) (h : d₀.pred = some d) : Produced d
+  | fromChrono (y m dd : Int) (d : Date) (h : Foreign.fromChrono y m dd = .ok d) : Produced d
+  | fromTime (y m dd : Int) (d : Date) (h : Foreign.fromTime y m dd = .ok d) : Produced d
 
-/-- `at_ymd` on a proleptic calendar -/
-theorem canon_atYmd_proleptic (ρ : Rule) (y : Int) (hy : InI32 y) (m : Month) (dd : Int) (d : Date)
-    (h : (ruleCal ρ).atYmd y m dd = .ok d) : Canon d := by
-  rw [ruleCal_atYmd ρ y hy m dd] at h
+theorem canon_of_atJdn (c : Calendar) (hc : WF c) (j : Int) (hj : InI32 j) (d : Date)
+    (h : c.atJdn? j = some d) : Canon d := by
+  obtain ⟨hcal, hjd, _⟩ := atJdn?_parts c j d h
+  refine ⟨by rw [hcal]; exact hc, by rw [hjd]; exact hj, ?_⟩
+  rw [hcal, hjd]; exact h
+
+theorem canon_of_atYmd (c : Calendar) (hc : WF c) (y : Int) (hy : InI32 y) (m : Month) (dd : Int)
+    (hd : 0 ≤ dd) (d : Date) (h : c.atYmd y m dd = .ok d) : Canon d := by
+  obtain ⟨A⟩ := hc.accepting
+  obtain ⟨h1, h2, _⟩ := A.atYmd_canon y hy m dd hd d h
+  exact canon_of_atJdn c hc d.jdn h2 d h1
+
+theorem canon_of_atOrdinalDate (c : Calendar) (hc : WF c) (y : Int) (hy : InI32 y) (o : Int)
+    (d : Date) (h : c.atOrdinalDate y o = .ok d) : Canon d := by
+  obtain ⟨A⟩ := hc.accepting
+  obtain ⟨h1, h2, _⟩ := A.atOrdinalDate_canon y o hy d h
+  exact canon_of_atJdn c hc d.jdn h2 d h1
+
+theorem ite_ok_inv {X v : Int} {r rest : List Char} {e : ParseDateError}
+    (h : (if inI32 X = true then (Except.ok (X, r) : Except ParseDateError (Int × List Char)) else .error e)
+          = .ok (v, rest)) : InI32 v := by
+  by_cases hc : inI32 X = true
+  · rw [if_pos hc] at h
+    injection h with h; injection h with h1 _; subst h1
+    exact (inI32_iff _).mp hc
+  · rw [if_neg hc] at h; cases h
+
+theorem parseInt_range (s : List Char) (v : Int) (rest : List Char) (h : parseInt s = .ok (v, rest)) :
+    InI32 v := by
+  cases s with
+  | nil => simp [parseInt] at h
+  | cons c cs =>
+    simp only [parseInt] at h
+    by_cases h1 : (c == '-' || c == '+') = true
+    · rw [if_pos h1] at h
+      by_cases h2 : (spanDigits cs).1.isEmpty = true
+      · rw [if_pos h2] at h; cases h
+      · rw [if_neg h2] at h
+        exact ite_ok_inv h
+    · rw [if_neg h1] at h
+      by_cases h3 : isAsciiDigit c = true
+      · rw [if_pos h3] at h
+        exact ite_ok_inv h
+      · rw [if_neg h3] at h; cases h
+
+theorem parseUInt_range (s : List Char) (v : Int) (rest : List Char) (h : parseUInt s = .ok (v, rest)) :
+    0 ≤ v := by
+  simp only [parseUInt] at h
   split at h
-  · rename_i hv
+  · split at h <;> cases h
+  · split at h
+    · injection h with h; injection h with h1 h2; subst h1; exact Int.natCast_nonneg _
+    · cases h
+
+theorem canon_of_parseDate (c : Calendar) (hc : WF c) (s : List Char) (d : Date)
+    (h : c.parseDate s = .ok d) : Canon d := by
+  simp only [Calendar.parseDate] at h
+  cases h1 : parseInt s with
+  | error e => rw [h1] at h; cases h
+  | ok r =>
+    obtain ⟨year, rest⟩ := r
+    have hy := parseInt_range s year rest h1
+    rw [h1] at h; simp only at h
+    cases h2 : scanChar '-' rest with
+    | error e => rw [h2] at h; cases h
+    | ok rest2 =>
+      rw [h2] at h; simp only at h
+      cases h3 : parseDayInYear rest2 with
+      | error e => rw [h3] at h; cases h
+      | ok r3 =>
+        obtain ⟨diny, rest3⟩ := r3
+        rw [h3] at h; simp only at h
+        split at h
+        · cases h
+        · cases diny with
+          | ordinal o =>
+            simp only at h
+            cases h4 : c.atOrdinalDate year o with
+            | error e => rw [h4] at h; cases h
+            | ok d' => rw [h4] at h; injection h with h; subst h
+                       exact canon_of_atOrdinalDate c hc year hy o d' h4
+          | date month day =>
+            simp only at h
+            have hday : 0 ≤ day := by
+              simp only [parseDayInYear] at h3
+              cases p1 : parseUInt rest2 with
+              | error e => rw [p1] at h3; cases h3
+              | ok q =>
+                obtain ⟨f1, r1⟩ := q
+                rw [p1] at h3; simp only at h3
+                split at h3
+                · cases h3
+                · cases hm : Month.ofInt? f1 with
+                  | none => rw [hm] at h3; cases h3
+                  | some mo =>
+                    rw [hm] at h3; simp only at h3
+                    cases p2 : scanChar '-' r1 with
+                    | error e => rw [p2] at h3; cases h3
+                    | ok r2 =>
+                      rw [p2] at h3; simp only at h3
+                      cases p3 : parseUInt r2 with
+                      | error e => rw [p3] at h3; cases h3
+                      | ok q3 =>
+                        obtain ⟨dv, r3'⟩ := q3
+                        rw [p3] at h3; simp only at h3
+                        injection h3 with h3; injection h3 with h3a h3b
+                        injection h3a with _ hdv; subst hdv
+                        exact parseUInt_range r2 dv r3' p3
+            cases h4 : c.atYmd year month day with
+            | error e => rw [h4] at h; cases h
+            | ok d' => rw [h4] at h; injection h with h; subst h
+                       exact canon_of_atYmd c hc year hy month day hday d' h4
+
+/-- **whatever sequence of public operations produced it, a date is field-for-field the
+one obtained by asking its own calendar for its Julian day number** -/
+theorem produced_canon {d : Date} (h : Produced d) : Canon d := by
+  induction h with
+  | atJdn c hc j hj d h => exact canon_of_atJdn c hc j hj d h
+  | atYmd c hc y hy m dd hd d h => exact canon_of_atYmd c hc y hy m dd hd.1 d h
+  | atOrdinalDate c hc y hy o _ d h => exact canon_of_atOrdinalDate c hc y hy o d h
+  | parseDate c hc s d h => exact canon_of_parseDate c hc s d h
+  | atUnixTime c hc t d secs h =>
+    simp only [Calendar.atUnixTime?] at h
+    cases hu : unix2jdn t with
+    | none => rw [hu] at h; cases h
+    | some p =>
+      obtain ⟨j, s⟩ := p
+      rw [hu] at h; simp only at h
+      have hj : InI32 j := by
+        simp only [unix2jdn] at hu
+        split at hu
+        · rename_i hc'; injection hu with hu; injection hu with h1 _; subst h1
+          exact (inI32_iff _).mp hc'
+        · cases hu
+      cases ha : c.atJdn? j with
+      | none => rw [ha] at h; cases h
+      | some d' =>
+        rw [ha] at h; injection h with h; injection h with h; injection h with h1 _; subst h1
+        exact canon_of_atJdn c hc j hj d' ha
+  | atSystemTime c hc before s n d secs h =>
+    simp only [Calendar.atSystemTime?] at h
+    cases hu : system2jdn before s n with
+    | none => rw [hu] at h; cases h
+    | some p =>
+      obtain ⟨j, s'⟩ := p
+      rw [hu] at h; simp only at h
+      have hj : InI32 j := by
+        have : ∀ t, unix2jdn t = some (j, s') → InI32 j := by
+          intro t hu'
+          simp only [unix2jdn] at hu'
+          split at hu'
+          · rename_i hc'; injection hu' with hu'; injection hu' with h1 _; subst h1
+            exact (inI32_iff _).mp hc'
+          · cases hu'
+        simp only [system2jdn] at hu
+        split at hu
+        · cases hu
+        · split at hu <;> exact this _ hu
+      cases ha : c.atJdn? j with
+      | none => rw [ha] at h; cases h
+      | some d' =>
+        rw [ha] at h; injection h with h; injection h with h; injection h with h1 _; subst h1
+        exact canon_of_atJdn c hc j hj d' ha
+  | lastJulian c hc d h =>
+    rcases hc.cases with rfl | rfl | ⟨rf, rfl, hR⟩
+    · cases h
+    · cases h
+    · rw [rf.lastJulianDate_eq] at h
+      -- R - 1 is a 32-bit day number because `reforming` rejects R = i32::MIN
+      exact canon_of_atJdn _ hc _ hR.2 d h
+    | firstGregorian c hc d h =>
+    rcases hc.cases with rfl | rfl | ⟨rf, rfl, hR⟩
+    · cases h
+    · cases h
+    · rw [rf.firstGregorianDate_eq] at h
+      exact canon_of_atJdn _ hc _ hR.1 d h
+  | nthDate c hc y hy m s hs n hn d h =>
+    simp only [Calendar.monthShape] at hs
+    cases hi : c.monthIShape y m with
+    | none => rw [hi] at hs; cases hs
+    | some si =>
+      rw [hi] at hs; injection hs with hs; subst hs
+      simp only [MonthShape.nthDate, MonthShape.nthDay] at h
+      cases hn' : si.nthDay n with
+      | none => rw [hn'] at h; cases h
+      | some day =>
+        rw [hn'] at h; simp only at h
+        cases hy' : c.atYmd y m day with
+        | error e => rw [hy'] at h; cases h
+        | ok d' =>
+          rw [hy'] at h; injection h with h; subst h
+          obtain ⟨A⟩ := hc.accepting
+          have hv := A.valid y m (Calendar.mem_all m) si hi
+          -- nth_day only answers with days ≥ 1
+          have hday : 0 ≤ day := by
+            have hk := (si.nthDay_some_iff hv n hn.1).mp ⟨day, hn'⟩
+            have := si.dayOrdinalErr_of_nthDay hv y m n day hk.1 hn'
+            cases si <;> simp only [IShape.nthDay, IShape.Valid] at hn' hv <;>
+              (repeat' split at hn') <;> (try cases hn') <;> omega
+          exact canon_of_atYmd c hc y hy m day hday d' hy'
+  | convertTo d₀ _ c hc d h ih =>
+    exact canon_of_atJdn c hc d₀.jdn ih.2.1 d h
+  | succ d₀ _ d h ih =>
+    obtain ⟨hc, hj, hat⟩ := ih
+    obtain ⟨T⟩ := hc.tiling
+    have hs := T.succ_spec d₀.jdn hj d₀ hat
+    rw [h] at hs
+    split at hs
+    · cases hs
+    · rename_i hmax
+      have hj2 : InI32 (d₀.jdn + 1) := by simp only [InI32] at *; omega
+      exact canon_of_atJdn d₀.calendar hc (d₀.jdn + 1) hj2 d hs.symm
+  | pred d₀ _ d h ih =>
+    obtain ⟨hc, hj, hat⟩ := ih
+    obtain ⟨T⟩ := hc.tiling
+    have hs := T.pred_spec d₀.jdn hj d₀ hat
+    rw [h] at hs
+    split at hs
+    · cases hs
+    · rename_i hmin
+      have hj2 : InI32 (d₀.jdn - 1) := by simp only [InI32] at *; omega
+      exact canon_of_atJdn d₀.calendar hc (d₀.jdn - 1) hj2 d hs.symm
+  | fromChrono y m dd d h =>
+    simp only [Foreign.fromChrono, Foreign.fromForeign] at h
     split at h
     · cases h
-      obtain ⟨y', m', d', hat, hd⟩ := ruleCal_atJdn ρ (jdnOf ρ y m dd)
-      obtain ⟨rfl, rfl, rfl⟩ := isDate_unique hd ⟨hv, rfl⟩
-      simpa [Canon] using hat
-    · cases h
-  · cases h
-
-/-- `at_ordinal_date` on a proleptic calendar -/
-theorem canon_atOrdinalDate_proleptic (ρ : Rule) (y : Int) (hy : InI32 y) (o : Int) (d : Date)
-    (h : (ruleCal ρ).atOrdinalDate y o = .ok d) : Canon d := by
-  by_cases ho : 1 ≤ o ∧ o ≤ yearLen ρ y
-  · obtain ⟨m, dd, hsum, h1, h2, heq⟩ := (ruleCal_atOrdinalDate ρ y hy o).1 ho
-    rw [heq] at h
+    · rename_i mo hv
+      simp only [Foreign.validForeign] at hv
+      split at hv
+      · split at hv
+        · rename_i hc'
+          simp only [Bool.and_eq_true, decide_eq_true_eq, Foreign.CHRONO_MIN_YEAR, Foreign.CHRONO_MAX_YEAR] at hc'
+          have hy1 := of_decide_eq_true hc'.1.1.1
+          have hy2 := of_decide_eq_true hc'.1.1.2
+          injection hv with hv; subst hv
+          split at h
+          · rename_i dt hdt
+            injection h with h; subst h
+            exact canon_of_atYmd .gregorian (Or.inr (Or.inl rfl)) y (by simp only [InI32]; omega) _ dd (by omega) _ hdt
+          · cases h
+        · cases hv
+      · cases hv
+  | fromTime y m dd d h =>
+    simp only [Foreign.fromTime, Foreign.fromForeign] at h
     split at h
     · cases h
-      obtain ⟨y', m', d', hat, hd⟩ := ruleCal_atJdn ρ (yearStart ρ y + o - 1)
-      have hd2 : IsDate ρ (yearStart ρ y + o - 1) y m dd := ⟨⟨h1, h2⟩, by simp only [jdnOf]; omega⟩
-      obtain ⟨rfl, rfl, rfl⟩ := isDate_unique hd hd2
-      simp only [Canon]
-      rw [hat, hsum]
-    · cases h
-  · rw [(ruleCal_atOrdinalDate ρ y hy o).2 ho] at h; cases h
+    · rename_i mo hv
+      simp only [Foreign.validForeign] at hv
+      split at hv
+      · split at hv
+        · rename_i hc'
+          simp only [Bool.and_eq_true, decide_eq_true_eq, Foreign.TIME_MIN_YEAR, Foreign.TIME_MAX_YEAR] at hc'
+          have hy1 := of_decide_eq_true hc'.1.1.1
+          have hy2 := of_decide_eq_true hc'.1.1.2
+          injection hv with hv; subst hv
+          split at h
+          · rename_i dt hdt
+            injection h with h; subst h
+            exact canon_of_atYmd .gregorian (Or.inr (Or.inl rfl)) y (by simp only [InI32]; omega) _ dd (by omega) _ hdt
+          · cases h
+        · cases hv
+      · cases hv
 
-/-- equal day numbers in one calendar give equal canonical dates: equality, ordering and
-hashing cannot disagree on canonical dates -/
-theorem canon_eq_of_jdn (d₁ d₂ : Date) (h₁ : Canon d₁) (h₂ : Canon d₂)
-    (hc : d₁.calendar = d₂.calendar) (hj : d₁.jdn = d₂.jdn) : d₁ = d₂ := by
-  simp only [Canon] at h₁ h₂
-  rw [hc, hj] at h₁
-  rw [h₁] at h₂
-  exact Option.some.inj h₂
+/-- consequently two produced dates of one calendar are equal exactly when their day
+numbers are equal -/
+theorem eq_iff_jdn {d₁ d₂ : Date} (h₁ : Produced d₁) (h₂ : Produced d₂)
+    (hc : d₁.calendar = d₂.calendar) : d₁ = d₂ ↔ d₁.jdn = d₂.jdn := by
+  constructor
+  · intro h; rw [h]
+  · intro hj
+    have c1 := (produced_canon h₁).2.2
+    have c2 := (produced_canon h₂).2.2
+    rw [hc, hj] at c1
+    rw [c1] at c2
+    exact Option.some.inj c2
 
 end JV.C06
